@@ -14,7 +14,8 @@ TEXTS = ['m one', 'm two', 'm three', '', 'Complete', 'Great work!']
 TITLES = ['T1', 'T2', 'Instructor Feedback', '']
 SCORES = [0, 1, 2, 5, 0.25, 0.5, 0.1, 0.07, 1.5, '+1', '+3', '+0.25', '10%', '25%', '+50%', '+5%', '-1', '-0.5',
           '-10%', '-25%', '33%', '0.33', -2, -0.25, '7', '0.005', '+0.015', '.25', '.5', '.5%', '+.2', '-.05', '1.', '+1.%',
-          1e-05, -2e-05, 0.00009, 3.5e-07, 1e16, 2.5e+17]     # floats whose str() has an exponent
+          1e-05, -2e-05, 0.00009, 3.5e-07, 1e16, 2.5e+17,     # floats whose str() has an exponent
+          10.0, 100.0, -20.0, 3.0, 110.0, 0.30000000000000004]     # whole floats, and one with many digits
 PARENTS = [None, 1, 2, 'g']
 FIELD_KEYS = ['k', 'n']
 FIELD_VALUES = [1, 2, 'x', '@L3', '@L5']      # '@L<n>' stands for pedal's Location(n) (cases stay plain JSON)
@@ -33,6 +34,12 @@ def encode_value(v):
 
 CTORS = ['Feedback', 'explain', 'gently', 'compliment', 'give_partial', 'set_correct', 'guidance', 'system_error',
          'log', 'subclass']
+
+
+# score strings the documented grammar does not cover (the "=N" and "^N" forms are announced in pedal/resolvers/simple.py but not
+# implemented): resolve() may reject the report (ValueError) - but if it delivers a result, that result obeys the properties
+BAD_SCORES = ['=0%', '^50%', 'abc', '=0']
+_SCORE = st.sampled_from(SCORES * 8 + BAD_SCORES)      # about one score in a hundred
 
 
 def fields_strategy():
@@ -63,11 +70,11 @@ def _spec_for(ctor, score_bias, correct_bias):
     if ctor == 'give_partial':
         required['value'] = st.sampled_from(SCORES)
     elif score_bias:
-        required['score'] = st.sampled_from(SCORES)
+        required['score'] = _SCORE
         required['valence'] = st.sampled_from([None, -1, 0, 1])
         del optional['valence']
     else:
-        optional['score'] = st.sampled_from(SCORES)
+        optional['score'] = _SCORE
     if ctor in ('explain', 'gently', 'guidance', 'compliment', 'log'):
         required['message'] = st.sampled_from(TEXTS)
     elif ctor in ('Feedback', 'subclass'):
